@@ -484,3 +484,17 @@ def live_across_yield(body, local):
                 continue
             work.extend(body.succ(x))
     return sorted(hits)
+
+
+def lookups_keyed_by_response_key(F, bodies):
+    """schema metadata lookups (field_by_name / map get on fields) whose key derives from Field::response_key() or .alias instead of the field name"""
+    bad = []
+    for b in bodies:
+        for c in b.calls():
+            if not c.callee:
+                continue
+            if re.search(r"registry::\{impl#\d+\}::field_by_name$|indexmap::map::\{impl#\d+\}::get$|btree::map::\{impl#\d+\}::get$", c.callee) and len(c.args) >= 2:
+                o, passed = trace(b, c.args[1])
+                if flows_through(b, c.args[1], r"::response_key$") is not None or any(k == "field" and ".alias" in x for k, x in o):
+                    bad.append(c)
+    return bad
